@@ -95,6 +95,9 @@ class FmtDiff:
     def __format__(self, spec):
         return format("F", spec)
 
+    def __repr__(self):
+        return "<FmtDiff>"
+
 
 NVAL = 12
 
@@ -297,19 +300,6 @@ CHAINS = (
 )
 
 
-def classify(harness_name, args):
-    """key of the OPEN known finding (only used while it is listed open in KNOWN_FINDINGS.json)"""
-    if args.get("va") == 11:
-        return "c56-format-differs-from-str"
-    return None
-
-
-EXCLUDE = {
-    "c56-format-differs-from-str": {"single": "va != 11", "free_field": "va != 11", "chain": "va != 11",
-                                    "double": "va != 11"},
-}
-
-
 def chain(va: int, ci: int, tail: str) -> bool:
     """
     pre: 0 <= va < NVAL and 0 <= ci < len(CHAINS[va])
@@ -364,15 +354,19 @@ def _free_shards(tier):
 def _chain_shards(tier):
     k = BOUNDS[tier]["k"]
     out = [("len(tail) <= %d" % (k - 1), "va <= 4"), ("len(tail) <= %d" % (k - 1), "va >= 5")]
-    out += [("len(tail) == %d" % k, "va == %d" % a) for a in range(NVAL)]
+    for a in range(NVAL):
+        if len(CHAINS[a]) > 4:       # many chains: two shards
+            out += [("len(tail) == %d" % k, "va == %d" % a, "ci <= 2"), ("len(tail) == %d" % k, "va == %d" % a, "ci >= 3")]
+        else:
+            out += [("len(tail) == %d" % k, "va == %d" % a)]
     return out
 
 
 HARNESSES = [
-    H(single, shards=_single_shards, timeout={"quick": 90, "thorough": 1200}, labels=("end", "formats", "extract")),
-    H(free_field, shards=_free_shards, timeout={"quick": 90, "thorough": 1200}),
-    H(chain, shards=_chain_shards, timeout={"quick": 90, "thorough": 1200}, labels=("end", "extract")),
-    H(double, shards=lambda tier: [("va == %d" % a,) for a in range(NVAL)], timeout={"quick": 90, "thorough": 600}),
+    H(single, shards=_single_shards, timeout={"quick": 150, "thorough": 1500}, labels=("end", "formats", "extract")),
+    H(free_field, shards=_free_shards, timeout={"quick": 150, "thorough": 1500}),
+    H(chain, shards=_chain_shards, timeout={"quick": 150, "thorough": 1500}, labels=("end", "extract")),
+    H(double, shards=lambda tier: [("va == %d" % a,) for a in range(NVAL)], timeout={"quick": 150, "thorough": 900}),
 ]
 
 VECTORS = {
